@@ -106,9 +106,9 @@ func main() {
 	if err != nil {
 		die("%v", err)
 	}
-	build := findFunc(cf, "buildGraphFromAST")
+	build := findFunc(cf, "visitAST")
 	if build == nil {
-		die("graph/construct.go: func buildGraphFromAST not found")
+		die("graph/construct.go: func visitAST not found")
 	}
 	// scanner kinds: every Type: "<lit>" of a Node literal inside buildGraphFromAST
 	kindSet := map[string]bool{}
@@ -193,15 +193,18 @@ func main() {
 			okID := false
 			if ce, ok := m["ID"].(*ast.CallExpr); ok {
 				if f, ok := ce.Fun.(*ast.Ident); ok && f.Name == "GenerateSha256" && len(ce.Args) == 1 {
-					if be, ok := ce.Args[0].(*ast.BinaryExpr); ok && be.Op == token.ADD {
-						if p, ok := strLit(be.X); ok && exprString(fset, be.Y, csrc) == "node.Content(sourceCode)" {
+					// "<lit>" + file + "\x00" + node.Content(sourceCode)
+					arg := exprString(fset, ce.Args[0], csrc)
+					const tail = ` + file + "\x00" + node.Content(sourceCode)`
+					if strings.HasSuffix(arg, tail) {
+						if p, err := strconv.Unquote(strings.TrimSuffix(arg, tail)); err == nil {
 							idp, okID = p, true
 						}
 					}
 				}
 			}
 			if !okID {
-				die("construct.go:%d: operator case %v: ID is not GenerateSha256(\"<lit>\" + node.Content(sourceCode))", fset.Position(cc.Pos()).Line, ops)
+				die("construct.go:%d: operator case %v: ID is not GenerateSha256(\"<lit>\" + file + \"\\x00\" + node.Content(sourceCode))", fset.Position(cc.Pos()).Line, ops)
 			}
 			want := map[string]string{
 				"Name": "node.Content(sourceCode)", "CodeSnippet": "node.Content(sourceCode)",
